@@ -289,7 +289,73 @@ def r4_rewriting(ctx):
     ctx.ob("R17.4", "build_forward_request:terminator", okt, "", "the header block is closed with an empty line" if okt else "no terminating CRLF is appended")
 
 
+def r8_body_once_and_forms(ctx):
+    """(a) the body bytes that came with the header are forwarded in one place only: the rewritten request built by
+    build_forward_request is the header block and nothing else; (b) the empty strings produced by splitting the CRLFCRLF terminator
+    never become header lines: at least one of parser / rebuilder drops empty lines; (c) a request target is given a leading `/`
+    only if it is neither origin-form nor the asterisk form (`OPTIONS *`)"""
+    b = ctx.body("R17.8", HP + "build_forward_request")
+    if b is not None:
+        reads_body = []
+        for bi in sorted(b.reachable()):
+            blk = b.blocks[bi]
+            places = []
+            for st in blk["stmts"]:
+                if st["s"] == "assign":
+                    rv = st["rv"]
+                    for k in ("op", "a", "b"):
+                        if isinstance(rv.get(k), dict) and rv[k].get("o") in ("copy", "move"):
+                            places.append(rv[k]["place"])
+                    if "place" in rv:
+                        places.append(rv["place"])
+                    places += [x["place"] for x in rv.get("ops", []) if x.get("o") in ("copy", "move")]
+            if blk["term"]["t"] == "call":
+                places += [x["place"] for x in blk["term"]["args"] if x.get("o") in ("copy", "move")]
+            for p in places:
+                if any(e["p"] == "field" and e.get("name") == "body" for e in p["proj"]):
+                    reads_body.append(blk["tspan"]["line"])
+        ctx.ob("R17.8", "build_forward_request:does-not-touch-the-body", not reads_body, "src/client/http_proxy.rs:%s" % reads_body[0] if reads_body else "",
+               "the rebuilt request is the header block only; the early body is forwarded by the connection handler" if not reads_body else
+               "build_forward_request reads `req.body` (line %s) while the connection handler also forwards the early body: bytes that arrived in the same read as the header end reach the origin twice" % reads_body[0])
+    p = ctx.body("R17.8", HP + "parse_http_request")
+    n_empty = 0
+    for key, body in ctx.P.bodies.items():
+        if key.startswith((HP + "parse_http_request", HP + "build_forward_request")) and key not in ctx.P.inlined_away:
+            o_ = ctx.origins(body)
+            for c in body.calls():
+                if not (c.norm or "").endswith(("str::is_empty", "String::is_empty")) or not c.args:
+                    continue
+                t = o_.of_operand(c.args[0])
+                # an emptiness test of a header line: the element of an iteration, or the parameter of a filter closure
+                if any(is_call_term(s_, "Iterator>::next") for s_ in subterms(t)) or (body.kind == "Closure" and var_name(t) and not str(var_name(t)).startswith("req.")):
+                    n_empty += 1
+    if p is not None and b is not None:
+        ctx.ob("R17.8", "header-lines:empty-strings-are-dropped", n_empty >= 1, "", "%d emptiness tests on header lines between the parser and the rebuilder" % n_empty if n_empty else
+               "neither parse_http_request nor build_forward_request drops empty lines any more: the two empty strings left by splitting the CRLFCRLF terminator are emitted as header lines, the header block ends early "
+               "and four stray bytes precede the body")
+    d = ctx.body("R17.8", HP + "determine_target")
+    if d is not None:
+        cfg, conds, o = ctx.cfg(d), ctx.conds(d), ctx.origins(d)
+        slash_f, star_f = [], []
+        for c in conds.all():
+            if c.kind == "bool" and is_call_term(c.term, "str::starts_with", "::starts_with") and len(c.term[3]) > 1:
+                k = const_value(c.term[3][1])
+                if k == 47:
+                    slash_f += c.edges_for(False)
+                if k == 42:
+                    star_f += c.edges_for(False)
+        # the prefixing operation: a String built/modified from the path with a leading '/'
+        pre = [c for c in d.calls() if ((c.norm or "").endswith(("String::insert", "String::insert_str")) or ((c.norm or "").endswith(("fmt::format", "alloc::fmt::format")) and slash_f and cfg.edges_dominate(slash_f, c.bb)))]
+        if not slash_f or not pre:
+            ctx.missing("R17.8", "`starts_with('/')` test / slash-prefixing of the path in determine_target")
+        else:
+            ok = bool(star_f) and all(cfg.edges_dominate(star_f, c.bb) for c in pre)
+            ctx.ob("R17.8", "determine_target:asterisk-form-is-left-alone", ok, pre[0].site, "the leading `/` is added only when the target starts with neither `/` nor `*`" if ok else
+                   "the path is prefixed with `/` without excluding the asterisk form: `OPTIONS * HTTP/1.1` is forwarded as `OPTIONS /* HTTP/1.1`, a different request")
+
+
 def run(ctx):
+    r8_body_once_and_forms(ctx)
     from . import effects
     effects.check_property(ctx, "C17")    # R17.E: no operation on shared protocol state outside the reviewed table
     from . import C07, C10, C16
